@@ -18,7 +18,7 @@ import (
 func init() { register("C33", "exploration", checkC33) }
 
 type raceReport struct {
-	Key    string   // unordered pair of innermost broker functions
+	Key    string // unordered pair of innermost broker functions
 	Funcs  [2]string
 	Kinds  [2]string // read / write
 	Text   string
